@@ -10,6 +10,8 @@ be the numpy.ma concatenation in argument order.
 Thorough tier adds the functional form stack_files and the multi-file
 openers on netCDF pieces saved to disk."""
 import gc
+import os
+import shutil
 
 import numpy as np
 from hypothesis import strategies as st
@@ -38,9 +40,12 @@ RULE = ('Hypothesis: FileSpec (1-5 dims of length 1-6, <=1 unlimited, 1-5 '
         'carry the same attributes); split family: the result equals the '
         'original file field by field and result.sliceDimensions(d=slice(a,b))'
         ' equals each piece (unit-stride slices only).  Thorough tier also '
-        'runs core._functions.stack_files (data/dims only) and '
-        'netcdf.open_mfdataset / pncmfopen(stackdim=d) on pieces saved as '
-        'netCDF (R8b handle discipline).  Non-trivial: >=3 inputs, or d is '
+        '(and ~1/8 of the quick tier) runs core._functions.stack_files '
+        '(data/dims only) and netcdf.open_mfdataset / pncmfopen(stackdim=d) '
+        'on pieces saved as netCDF (R8b handle discipline) under file names '
+        'whose lexical order usually differs from the argument order '
+        '(unpadded numbers part_8..part_12, permuted letters); a quarter of '
+        'those cases split a compact file into 10-12 pieces of length 1.  Non-trivial: >=3 inputs, or d is '
         'not the leading axis of some variable, or a masked or coordinate '
         'variable lies on d.  Distinct by sha1 of the case spec.')
 ASSUMPTIONS = ['numpy slicing and numpy.ma.concatenate are the reference for '
@@ -74,6 +79,23 @@ def cases(draw, tier='quick'):
     if tier == 'thorough':
         entry = draw(st.sampled_from(['method', 'method', 'stack_files',
                                       'mfdataset', 'pncmfopen']))
+    elif draw(st.integers(0, 19)) >= 17:
+        # quick: a modest share through the functional form and the
+        # multi-file openers on netCDF pieces written to scratch
+        entry = draw(st.sampled_from(['pncmfopen', 'mfdataset', 'pncmfopen',
+                                      'stack_files']))
+    if entry != 'method' and draw(st.integers(0, 3)) == 0:
+        # many small pieces (10-12 of length 1) of a compact file
+        small = draw(S.filespecs(max_len=3, max_dims=3, max_vars=3,
+                                 attrs=True, masked=True, char=False,
+                                 unlimited=False, min_rank=1))
+        sd = [x[0] for x in small['dims']
+              if any(x[0] in v['dims'] for v in small['vars'])]
+        d = draw(st.sampled_from(sd))
+        n = draw(st.integers(10, 12))
+        fs = draw(A.redraw(small, FOPTS, newlen={d: n}))
+        return dict(family='split', file=fs, dim=d, sizes=[1] * n,
+                    bare=False, entry=entry, names=draw(pathnames(n)))
     if draw(st.integers(0, 4)) < 3:
         n = dlen[d]
         k = draw(st.integers(min(2, n), min(4, n)))
@@ -86,14 +108,32 @@ def cases(draw, tier='quick'):
         sizes = [b - a for a, b in zip(edges[:-1], edges[1:])]
         bare = (k == 2 and draw(st.booleans()))
         return dict(family='split', file=fs, dim=d, sizes=sizes, bare=bare,
-                    entry=entry)
+                    entry=entry, names=draw(pathnames(k))
+                    if entry != 'method' else None)
     k = draw(st.integers(2, 4))
     files = [fs]
     for i in range(k - 1):
         nl = draw(st.integers(1, 5))
         files.append(draw(A.redraw(fs, FOPTS, newlen={d: nl})))
     bare = (k == 2 and draw(st.booleans()))
-    return dict(family='indep', files=files, dim=d, bare=bare, entry=entry)
+    return dict(family='indep', files=files, dim=d, bare=bare, entry=entry,
+                names=draw(pathnames(k)) if entry != 'method' else None)
+
+
+@st.composite
+def pathnames(draw, k):
+    """file name stems for k pieces; the argument order is usually NOT the
+    lexical order of the names (unpadded numbers crossing a power of ten,
+    permuted letters)"""
+    scheme = draw(st.sampled_from(['unpadded', 'permuted', 'unpadded',
+                                   'padded']))
+    if scheme == 'unpadded':
+        start = draw(st.sampled_from([1, 8, 9, 98, 99]))
+        return ['part_%d' % (start + i) for i in range(k)]
+    if scheme == 'permuted':
+        return ['f_%s' % c for c in draw(st.permutations(
+            list('abcdefghijkl'[:k])))]
+    return ['p%03d' % i for i in range(k)]
 
 
 def strategy(tier):
@@ -134,8 +174,12 @@ def run_stack(r, case, files, d):
     from PseudoNetCDF import pncmfopen
     from PseudoNetCDF.core._files import netcdf
     paths = []
-    for f in files:
-        p = libstate.scratch_path('.nc')
+    names = case.get('names') or ['p%03d' % i for i in range(len(files))]
+    cdir = libstate.scratch_path('.d')
+    os.makedirs(cdir)
+    case['_cdir'] = cdir
+    for f, stem in zip(files, names):
+        p = os.path.join(cdir, stem + '.nc')
         ok, o = guard(r, 'save-raises',
                       lambda: f.save(p, format='NETCDF4_CLASSIC', verbose=0))
         if not ok:
@@ -215,17 +259,26 @@ def check_case(case):
         r.label('piece-len-1')
     r.nontrivial = nt
 
+    names = case.get('names')
+    if entry != 'method' and names:
+        r.label('paths-nonlexical' if list(names) != sorted(names)
+                else 'paths-lexical')
+    if k >= 10:
+        r.label('inputs>=10')
+    case = dict(case)      # run_stack records its scratch directory
     ok, out = run_stack(r, case, files, d)
-    if not ok:
-        return r
     try:
-        judge(r, case, out, models, m0, d, edges, entry)
+        if ok:
+            judge(r, case, out, models, m0, d, edges, entry)
     finally:
         if disk:
             from .. import libstate
-            libstate.release(out)
+            if out is not None:
+                libstate.release(out)
             del out
             gc.collect()
+            if case.get('_cdir'):
+                shutil.rmtree(case['_cdir'], ignore_errors=True)
     return r
 
 
